@@ -26,7 +26,7 @@ FIELDS = {'path': R.F_PATH, 'iface': R.F_INTERFACE, 'member': R.F_MEMBER, 'errna
           'sender': R.F_SENDER, 'cinst': R.F_CONTAINER_INSTANCE}
 
 
-def edit_alphabet(lengths):
+def edit_alphabet(lengths, long_values=False):
     ops = []
     for n in lengths:
         ops.append(('path', b'/' + b'p' * (n - 1) if n > 1 else b'/'))
@@ -38,7 +38,7 @@ def edit_alphabet(lengths):
             ops.append(('dest', b'd.' + b't' * (n - 2)))
         if n >= 4:
             ops.append(('sender', b':1.' + b'7' * (n - 3)))
-    if 17 in lengths:
+    if long_values:
         # the full (depth-1) alphabet also replaces the path by values that push every later field beyond 32 KiB / 64 KiB
         for n in LONG_LENGTHS[1:]:
             ops.append(('path', b'/' + b'P' * (n - 1)))
@@ -220,9 +220,54 @@ def task_expand(t):
             'n': n, 'hits': hits, 'succ': succ, 'start': start_hex, 'hist': hist}
 
 
+def task_failed_edits(items):
+    """An edit that fails for lack of memory is part of an edit sequence too: for every index k of the failing allocation the
+    harness (OOMEDIT) checks that the message still serialises to exactly the bytes it had before and that the edit succeeds
+    when repeated.  (C14 enumerates the same command over its own, larger set; here it closes C12's 'any sequence'.)"""
+    h = worker_harness('vbox')
+    out = []
+    n = idx = 0
+    for st, optxt in items:
+        case = {'start': st, 'ops': [optxt], 'failed_edit': True}
+        try:
+            r = h.cmd('OOMEDIT %s %s' % (st, optxt), timeout=300)
+        except HarnessDied as e:
+            out.append(crash_violation(e, case))
+            continue
+        if not r.startswith('OK'):
+            continue
+        kv = parse_kv(r)
+        n += 1
+        idx += int(kv['indices'])
+        what = kv['first'].split(':', 1)[-1]
+        opk = optxt.split('=')[0].rstrip('-')
+        if int(kv['bad']) and not what.startswith('failed-edit-changed-message'):
+            # the repeated edit failed or gave another result than the uninjected edit, or blocks leaked
+            out.append(Violation('failed-edit-' + re.sub(r'\(.*', '', what), opk, 'edit %s failing for lack of memory: %s (%s bad allocation indices of %s)' % (optxt[:60], kv['first'], kv['bad'], kv['indices']), case))
+        # what a FAILED edit may leave behind as far as this property goes: a well-formed message in which everything but the
+        # edited field (for strip: the unknown fields, of which any subset may be gone) is as before.  (That it should be
+        # byte-for-byte unchanged is C14's atomicity clause, judged there.)
+        pre = describe(R.decode_lenient(bytes.fromhex(st)))
+        for item in (kv.get('changed', '-').split(',') if kv.get('changed', '-') != '-' else []):
+            kk, hx = item.split(':')
+            post = R.decode_lenient(bytes.fromhex(hx))
+            stt = R.try_decode(bytes.fromhex(hx), fds_available=1 << 30)
+            if post is None or (stt[0] != 'ok' and not str(stt[1]).startswith('header.missing-')):
+                out.append(Violation('malformed-after-failed-edit', opk, 'edit %s failing at allocation %s leaves bytes that do not decode: %s' % (optxt[:60], kk, stt[1]), dict(case, bytes=hx)))
+                continue
+            dpost = describe(post)
+            diff = {x for x in set(pre) | set(dpost) if pre.get(x) != dpost.get(x)}
+            allowed = {'unknown'} if opk == 'strip' else ({'f%d' % FIELDS[opk]} if opk in FIELDS else ({'f5'} if opk == 'rserial' else {'flags'}))
+            if opk == 'strip' and 'unknown' in diff and not all(u in pre['unknown'] for u in dpost['unknown']):
+                diff.add('unknown-not-a-subset')
+            if diff - allowed:
+                out.append(Violation('other-field-changed', opk + '-failed', 'edit %s failing at allocation %s changed %r' % (optxt[:60], kk, sorted(diff - allowed)), dict(case, bytes=hx)))
+    return {'viol': [v.to_json() for v in out], 'n': n, 'idx': idx}
+
+
 def run(ctx):
     quick = ctx.tier == 'quick'
-    ops1 = edit_alphabet(range(1, 18))
+    ops1 = edit_alphabet(range(1, 18), long_values=True)
     ops_deep = edit_alphabet((1, 4, 7, 8, 9, 16))
     starts = [R.encode_message(m, auto_signature=False).hex() for m in start_messages(ctx.tier)]
     starts = list(dict.fromkeys(starts))
@@ -267,10 +312,24 @@ def run(ctx):
                 pool.cancel()
                 break
             completed_depth = depth
-            frontier = nxt
+            frontier = sorted(nxt, key=lambda t_: t_[2])        # results arrive in completion order: fix the order, so that the spread below is the same in every run
+        # failing edits (every allocation index) on a spread of the start messages
+        fe_items = [(st, op_text(op)) for st in starts[::(100 if quick else 25)] if len(st) < 40000 for op in ops_deep if op[0] != 'flag']
+        fe_n = fe_idx = 0
+        if not ctx.expired():
+            for r in pool.imap(task_failed_edits, [fe_items[i:i + 20] for i in range(0, len(fe_items), 20)]):
+                if '__crash__' in r:
+                    ctx.add_violation(Violation('crash', r['__crash__'], r['stderr'], {'task': r['task']}))
+                    continue
+                ctx.add_violations(r['viol'])
+                fe_n += r['n']
+                fe_idx += r['idx']
+            if pool.cut:
+                ctx.incomplete('deadline hit during the failing-edit part')
     finally:
         pool.close()
     ctx.coverage.update({
+        'failed_edits': fe_n, 'failed_edit_allocation_indices': fe_idx,
         'states': len(seen), 'transitions': transitions, 'traces_validated_against_impl': transitions,
         'start_messages': len(starts), 'completed_depth': completed_depth,
         'bound': 'depth 1 from every start message with %d edits; depth 2 from %d and depth 3 from %d spread states with %d edits' %
@@ -284,6 +343,8 @@ def run(ctx):
 
 def replay(case):
     """Re-run the whole recorded edit sequence from the start message, judging every step."""
+    if case.get('failed_edit'):
+        return [Violation.from_json(v) for v in task_failed_edits([(case['start'], case['ops'][0])])['viol']]
     out, hits = [], {}
     ops = case['ops']
     if case.get('blind'):
